@@ -403,9 +403,32 @@ def canon_position_chunks(fnode):
             if isinstance(a0, ast.Call) and call_name(a0) == "np.arange" and len(a0.args) == 1 and isinstance(a0.args[0], ast.Call) and call_name(a0.args[0]) == "len" \
                     and isinstance(a0.args[0].args[0], ast.Name):
                 hit = (nm, a0.args[0].args[0].id, v.value.args[1], v.slice)
+    split_only = False
+    if hit is None:
+        # P = np.array_split(np.arange(len(L)), K)  with every read of P being P[IDX] for one IDX: the same chain, indexed where it is used
+        par0 = enclosing_map(node)
+        for nm, v in env.items():
+            if isinstance(v, ast.Call) and call_name(v) == "np.array_split" and len(v.args) == 2:
+                a0 = v.args[0]
+                if isinstance(a0, ast.Call) and call_name(a0) == "np.arange" and len(a0.args) == 1 and isinstance(a0.args[0], ast.Call) and call_name(a0.args[0]) == "len" \
+                        and isinstance(a0.args[0].args[0], ast.Name):
+                    reads = [x for x in ast.walk(node) if isinstance(x, ast.Name) and x.id == nm and isinstance(x.ctx, ast.Load)]
+                    subs = [par0.get(x) for x in reads]
+                    if reads and all(isinstance(s_, ast.Subscript) and s_.value is x for s_, x in zip(subs, reads)) and len({U(s_.slice) for s_ in subs}) == 1:
+                        hit = (nm, a0.args[0].args[0].id, v.args[1], subs[0].slice)
+                        split_only = True
     if hit is None:
         return None
     P, L, K, IDX = hit
+    if split_only:
+        # read P[IDX] as the name P (the definition below becomes the definition of the chunk)
+        class Drop(ast.NodeTransformer):
+            def visit_Subscript(self, n):
+                self.generic_visit(n)
+                if isinstance(n.value, ast.Name) and n.value.id == P and isinstance(n.ctx, ast.Load):
+                    return n.value
+                return n
+        node = Drop().visit(node)
     uses = [x for x in ast.walk(node) if isinstance(x, ast.Name) and x.id == P and isinstance(x.ctx, ast.Load)]
     par = enclosing_map(node)
     changed = False
@@ -592,6 +615,17 @@ def r2(ctx):
             full = B.resolve(ret, env)
             for _ in range(6):
                 full = B.subst(full, {k: v for k, v in env.items() if k not in (chunk, BATCH) and not isinstance(v, ast.Lambda)})
+
+            class Case(ast.NodeTransformer):
+                # `X if <test on the batch argument> else Y` inside the value, decided for the case at hand
+                def visit_IfExp(self, n_):
+                    self.generic_visit(n_)
+                    v_ = _peval(n_.test, case, {})
+                    if isinstance(v_, bool):
+                        return n_.body if v_ else n_.orelse
+                    return n_
+            import copy as _copy
+            full = Case().visit(_copy.deepcopy(full))
             vals.add(B.text(full))
         if len(vals) != 1:
             raise AnalysisError(f"{f.site()}: the plates handed to the scorer under batch={case} have {len(vals)} different values over the paths")
